@@ -32,7 +32,8 @@ def solve_and_judge(case, which, in_situ=True):
         undo += monitors.install_cashflow_monitor(ins)
         undo += monitors.install_token_monitors(ins)
     try:
-        b = M.build(spec, ext_first=case.get('ext_first', True))
+        b = M.build(spec, ext_first=case.get('ext_first', True) or bool(spec.get('row')),
+                    **case.get('build_opts', {}))
     finally:
         monitors.unpatch(undo)
     shape = M.shape_of(spec)
@@ -94,7 +95,8 @@ def gen_case(rng, idx, tier, emphasis=None):
         spec = M.gen_spec(rng, n_zones=3, maxtime=4)
     else:
         spec = M.gen_spec(rng)
-    return {'kind': 'model', 'spec': spec, 'ext_first': rng.random() < 0.7}
+    return {'kind': 'model', 'spec': spec, 'ext_first': rng.random() < 0.7,
+            'build_opts': {'query_zone': rng.random() < 0.3, 'interleave_model': rng.random() < 0.3}}
 
 
 class C01(object):
